@@ -1,11 +1,12 @@
 #!/bin/bash
 # Offline build of the harness (path-dependencies on /repo) and of the repo's own binaries
-# used by C01/C05 (built WITHOUT the verification cfg, into /verif/.cache/target-repo).
+# used by C01/C05 (built WITHOUT the verification cfg, into .cache/target-repo).
 set -e
-cd "$(dirname "$0")"
+V="$(cd "$(dirname "$0")" && pwd)"
+cd "$V"
 export CARGO_NET_OFFLINE=true
 mkdir -p .cache
 [ -f harness/Cargo.lock ] || cp /repo/Cargo.lock harness/Cargo.lock
 (cd harness && cargo build --offline 2>&1 | tail -3)
-(cd /repo && CARGO_TARGET_DIR=/verif/.cache/target-repo cargo build --offline -p hulc2model -p bemodel --bins 2>&1 | tail -3)
+(cd /repo && CARGO_TARGET_DIR="$V/.cache/target-repo" cargo build --offline -p hulc2model -p bemodel --bins 2>&1 | tail -3)
 echo setup done
